@@ -148,7 +148,7 @@ func c12LayoutPatches(tier string) []c12Patch {
 }
 
 func c12FileSets() [][]string {
-	return [][]string{{"doc.go", "m1.go", c12LongName, "crlf.go"}, {"m1.go", "m2.go", "n.go", "gen.go"}, {"nonl.go", "crlf.go", "ugly.go", "imp.go"}, {"bom.go", "cgo.go", "raw.go", "generic.go"}, {"hl.go", "m1.go", "nonl.go", "hl2.go"}, {"big.go"}}
+	return [][]string{{"doc.go", "m1.go", c12LongName, "crlf.go"}, {"m1.go", "m2.go", "n.go", "gen.go"}, {"nonl.go", "crlf.go", "ugly.go", "imp.go"}, {"bom.go", "cgo.go", "raw.go", "generic.go"}, {"hl.go", "m1.go", "nonl.go", "hl2.go"}, {"big.go"}, {"wide.go"}}
 }
 
 // c12Modes: files of the catalogue that carry other permission bits than 0644
@@ -170,8 +170,10 @@ var c12LongName = "l_" + strings.Repeat("n", 236) + ".go"
 
 var c12Sources = map[string]string{
 	// a file without declarations, and a file whose temporary sibling cannot be created (the patch makes it shorter)
-	"doc.go":    "// Package a does things.\npackage a\n",
-	"big.go":    c12BigFile(),
+	"doc.go": "// Package a does things.\npackage a\n",
+	"big.go": c12BigFile(),
+	// one line of more than 64 KiB (a bufio.Scanner gives up on it)
+	"wide.go":   "package a\n\nvar wide = \"" + strings.Repeat("w", 70000) + "\"\n\nfunc W() int {\n\tv := f1(1)\n\treturn v + f2(2)\n}\n",
 	c12LongName: "package a\n\nvar L = veryLongFunctionName(1) + veryLongFunctionName(2)\n\nvar M = f1(3)\n",
 	"m1.go":     "package a\n\n// F doc.\nfunc F() int {\n\tv := f1(1)\n\treturn v\n}\n",
 	"m2.go":     "package a\n\nimport (\n\t\"fmt\"\n\t\"os\"\n)\n\nfunc G() {\n\tfmt.Println(f1(2), f2(os.Args))\n\tf2(3) // trailing\n}\n",
